@@ -26,7 +26,10 @@ broken translator obligation):
                `let (a, b) := ...`), `f(d - s for s, d in zip(a, b))` for 3-tuples `a`, `b` (component-wise tuple).
   iterables  : `range(n)`, `range(a, b)`, `range(a, b, <non-zero int literal>)`, `reversed(range(...))`, a tuple or
                list literal, a list-typed parameter.
-  loops      : a `for` loop is `List.foldl` over the list of the iterable's values; the fold state is the tuple of
+  loops      : every loop body is emitted as a definition of its own, `<f>_loop<k>` (k = number of the loop in
+               source order; parameters: the variables of the enclosing scope it mentions, then the state, then the
+               element), so that the companion proofs can state what one iteration does.
+               A `for` loop is `List.foldl` over the list of the iterable's values; the fold state is the tuple of
                the variables that exist before the loop and are assigned in its body (plus, when needed, the flags
                `brk_ : Bool` - a `break`/`return`/`raise` was executed, the remaining elements are skipped - and
                `ret_ : Option <result>` - the value returned / exception raised inside the loop).  Variables first
